@@ -250,6 +250,21 @@ def map_descriptor(mod, fn, calias='_C'):
 
     def matched_rests(e):
         """'eager' / 'lazy' / None for an expression that matches rests against the treespec"""
+        # `<leaves> if r is <tree> else treespec.flatten_up_to(r)`: a rest that is the very tree
+        # object has the tree's own leaves - anything else in that place is misaligned
+        if isinstance(e, (ast.ListComp, ast.GeneratorExp)) and isinstance(e.elt, ast.IfExp) and \
+                len(e.generators) == 1 and isinstance(e.generators[0].target, ast.Name):
+            rv = e.generators[0].target.id
+            ie = e.elt
+            same = pmatch(ie.test, '?r is ?t', {'r': rv, 't': tree_param(fn)}) is not None
+            other = pmatch(ie.test, '?r is not ?t', {'r': rv, 't': tree_param(fn)}) is not None
+            if same or other:
+                short_, full_ = (ie.body, ie.orelse) if same else (ie.orelse, ie.body)
+                if isinstance(full_, ast.Call) and call_name(full_) == '%s.flatten_up_to' % spec_var and \
+                        len(full_.args) == 1 and is_name(full_.args[0], rv) and is_name(e.generators[0].iter, 'rests'):
+                    if not is_name(short_, leaves_var):
+                        d['rest_shortcut'] = src(short_)
+                    return 'eager' if isinstance(e, ast.ListComp) else 'lazy'
         if isinstance(e, (ast.ListComp, ast.GeneratorExp)) and isinstance(e.elt, ast.Call) and \
                 call_name(e.elt) == '%s.flatten_up_to' % spec_var and len(e.generators) == 1 and \
                 is_name(e.generators[0].iter, 'rests') and len(e.elt.args) == 1 and \
@@ -376,6 +391,9 @@ def f2(ctx):
             problems.append('map() is not applied to func')
         if d['extra'] != extra:
             problems.append('extra first iterable is %s, expected %s' % (d['extra'], extra))
+        if d.get('rest_shortcut'):
+            problems.append('a rest that is the tree itself is given `%s` instead of the tree\'s leaves'
+                            % d['rest_shortcut'])
         if d['consumer'] != exp_consumer:
             problems.append('map object consumed by %s, expected %s' % (d['consumer'], exp_consumer))
         if d['returns'] != ret:
